@@ -124,7 +124,7 @@ def _value(cx, field, tag):
     if field == "prop_value":
         return cx.str(n, cx.choose(n + ".len", 0, cx.p("lmsg")), "a \n\r")
     if field in ("path", "symlink_target"):
-        return cx.str(n, cx.choose(n + ".len", 1, cx.p("lpath")), "a/\\ \n")
+        return cx.str(n, cx.choose(n + ".len", 1, cx.p("lpath")), "a/\\ \n\t\xa0")
     if field in ("file_id", "entry_revision", "revision_id"):
         return cx.bytes(n, cx.choose(n + ".len", 1, 2), b"ab -")
     if field == "sha1":
